@@ -1046,6 +1046,7 @@ func (ex *Exec) execBlock(fr *Frame, b *ssa.BasicBlock, st *State, loops map[*ss
 			for _, r := range x.Results {
 				vals = append(vals, ex.operand(fr, st, r))
 			}
+			ex.checkExhaustive(fr, b, nil, st, loops)
 			fr.retSts = append(fr.retSts, st)
 			fr.retVals = append(fr.retVals, vals)
 			return
@@ -1067,6 +1068,7 @@ func (ex *Exec) flow(fr *Frame, from, to *ssa.BasicBlock, st *State, loops map[*
 		ex.backEdge(fr, loops[to], st)
 		return
 	}
+	ex.checkExhaustive(fr, from, to, st, loops)
 	if prev, ok := fr.edge[k]; ok && prev != nil {
 		// both branches of an If go to the same block
 		fr.edge[k] = ex.merge2(prev, st)
